@@ -8,6 +8,7 @@ import (
 	"testing"
 	"time"
 
+	"github.com/btcsuite/btclog/v2"
 	"simrt"
 )
 
@@ -193,4 +194,55 @@ func (k tknobs) opts() []TimeoutOptions {
 
 func (k tknobs) String() string {
 	return fmt.Sprintf("static=%v resend=%v hs=%v ping=%v pong=%v", k.static, k.resend, k.handshake, k.ping, k.pong)
+}
+
+// capLog captures the "Error in ..." debug lines of the connection loops so
+// that oracles can tell why an endpoint closed (keepalive timeout vs. FIN vs.
+// transport error) without touching the code under test.
+type capLog struct {
+	btclog.Logger
+	prefix string
+	sink   *logSink
+}
+
+type logSink struct {
+	mu    sync.Mutex
+	lines []string
+}
+
+func (c *capLog) WithPrefix(p string) btclog.Logger {
+	return &capLog{Logger: c.Logger.WithPrefix(p), prefix: c.prefix + p, sink: c.sink}
+}
+
+func (c *capLog) Debugf(f string, a ...any) {
+	if len(f) >= 8 && f[:8] == "Error in" {
+		c.sink.mu.Lock()
+		c.sink.lines = append(c.sink.lines, c.prefix+" "+fmt.Sprintf(f, a...))
+		c.sink.mu.Unlock()
+	}
+}
+
+// closeReasons returns the captured loop-exit errors whose prefix matches who
+// ("(client)" or "(server)").
+func (s *logSink) closeReasons(who string) []string {
+	s.mu.Lock()
+	defer s.mu.Unlock()
+	var out []string
+	for _, l := range s.lines {
+		if len(l) >= len(who) && l[:len(who)] == who {
+			out = append(out, l)
+		}
+	}
+	return out
+}
+
+var baseLogger btclog.Logger
+
+func installLog() *logSink {
+	if baseLogger == nil {
+		baseLogger = log
+	}
+	s := &logSink{}
+	log = &capLog{Logger: baseLogger, sink: s}
+	return s
 }
